@@ -336,7 +336,35 @@ class QuotientWorld(Scenario):
             items = [uni[i] for i in step["items"] if i < len(uni)]
             union = self.model | set(items)
             if not self.auto and len(union) > f.size:
-                return "skip"
+                if not self.try_refusals:
+                    return "skip"
+                # a merge that cannot fit must be refused (QuotientFilterError, possibly half-way); the filter that is
+                # merged IN must come out of it untouched and usable, the receiver's content is taken from observation
+                from probables.exceptions import QuotientFilterError
+
+                second = self.QF(quotient=step["q"], auto_expand=True, hash_function=self.hf)
+                for h in items:
+                    second.add_alt(h)
+                donor_before = sorted(second.get_hashes())
+                st, v = self.call(lambda: f.merge(second), "merge that cannot fit")
+                ctx.fault("merge_refused")
+                if st != "exc" or not isinstance(v, QuotientFilterError):
+                    raise Violation("refusal_missing", f"merge of {len(items)} hashes into a full table that cannot grow "
+                                                       f"returned {v!r}", self.full_sig())
+                try:
+                    donor_after = sorted(second.get_hashes())
+                    again = sorted(second.get_hashes())
+                except Exception as e:
+                    raise Violation("merge_modified_operand", f"after a refused merge the merged-in filter is unusable: "
+                                                              f"get_hashes() raised {type(e).__name__}: {e}", self.full_sig())
+                if donor_after != donor_before or again != donor_before or second.elements_added != len(donor_before):
+                    raise Violation("merge_modified_operand", "a refused merge changed the filter that was being merged in",
+                                    self.full_sig())
+                for h in items:
+                    if f.check_alt(h):
+                        self.model.add(h)
+                self.observe(step)
+                return {"r": "refused"}
             if cfg["avoid_full"] and not self.auto and len(union) >= f.size:
                 return "skip"
             second = self.QF(quotient=step["q"], auto_expand=True, hash_function=self.hf)  # None = library default
